@@ -3,6 +3,7 @@ Operations of the model driver: one case line in, one answer line out.
 -/
 import SltVerif.Parser
 import SltVerif.Runner
+import SltVerif.Unparse
 import Driver.Codec
 import Driver.Db
 namespace Drv
@@ -125,6 +126,29 @@ def opParse : Rd String := do
   let b := run true
   pure (if a == b then a else "TABLE-MISS")
 
+def encParseResult (r : Except PFail (List Rec)) : String :=
+  match r with
+  | .error (.panic _) => "panic"
+  | .error e => s!"err {encPFail e}"
+  | .ok recs => recs.foldl (fun acc r => acc ++ " | " ++ encRec r) s!"ok {recs.length}"
+
+def opFmt : Rd String := do
+  let text ← str
+  let valid ← listOf pairSB
+  let run (dflt : Bool) : String :=
+    let pcfg : PCfg :=
+      { regexValid := fun s => (lookup2 valid s).getD dflt, fromChar := ColT.fromCharDefault }
+    match parse pcfg text with
+    | .error (.panic _) => "panic"
+    | .error e => s!"parseerr {encPFail e}"
+    | .ok recs =>
+      match fmtFile recs with
+      | none => "panic"
+      | some f1 => s!"ok {hx f1} {encParseResult (parse pcfg f1)}"
+  let a := run false
+  let b := run true
+  pure (if a == b then a else "TABLE-MISS")
+
 def dispatchOp (line : String) : String :=
   match line.splitOn " " with
   | [] => "bad-op"
@@ -133,6 +157,7 @@ def dispatchOp (line : String) : String :=
       match op with
       | "script" => opScript.run rest
       | "parse" => opParse.run rest
+      | "fmt" => opFmt.run rest
       | _ => .error s!"unknown op {op}"
     match r with
     | .ok (out, []) => out
